@@ -174,6 +174,8 @@ extern "C" void h_c04(int ver, int feat, int which) {
 	}
 	if (rootParentless && root)
 		sym_assert(hdr.GetBlock<NiObject>(0u) == root, "C04-root-first: parentless root is not the first block");
+	for (uint32_t j = 0; j < n2; j++)
+		sym_assert(hdr.GetBlockTypeStringById(j) == hdr.GetBlock<NiObject>(j)->GetBlockName(), "C04-typenames: header type name of a slot differs from the block in it after sort/prune");
 	for (size_t i = 0; i < s.objs.size(); i++)
 		if (leaf[i] && pos[i] >= 0) {
 			auto after = put_bytes(hdr, s.objs[i]);
